@@ -145,6 +145,8 @@ class State:
         self.ninstr = 0
         self.trace = []        # decisions, for evidence samples
         self.threads = None
+        self.defs = []         # definitions of abstracted FP operations (UF application == exact term)
+        self.model = None      # a model of pc (or None when unknown)
 
     def clone(self):
         s = State.__new__(State)
@@ -158,6 +160,8 @@ class State:
         s.ninstr = self.ninstr
         s.trace = list(self.trace)
         s.threads = self.threads
+        s.defs = list(self.defs)
+        s.model = self.model
         return s
 
 
@@ -166,8 +170,8 @@ class State:
 
 
 class SolverCtx:
-    def __init__(self, timeout_ms=60000, seed=0):
-        self.s = z3.Solver()
+    def __init__(self, timeout_ms=60000, seed=0, logic=None):
+        self.s = z3.SolverFor(logic) if logic else z3.Solver()
         self.s.set('timeout', timeout_ms)
         if seed:
             self.s.set('random_seed', seed & 0x7fffffff)
@@ -344,6 +348,76 @@ def simp_fp(t, bits):
     return t if c is None else c
 
 
+RANGES = {}   # z3 ast id of a symbol -> (lo, hi), fixed at creation (vf.IntRange)
+
+
+def interval(t, bits=64, signed=True):
+    """conservative signed interval of an integer value, or None"""
+    if not is_sym(t):
+        return (t, t)
+    if z3.is_bv_value(t):
+        v = wrap(t.as_long(), t.size(), signed)
+        return (v, v)
+    if not z3.is_bv(t):
+        return None
+    w = t.size()
+    lo_t, hi_t = (-(1 << (w - 1)), (1 << (w - 1)) - 1) if signed else (0, (1 << w) - 1)
+    k = t.decl().kind()
+    if k == z3.Z3_OP_UNINTERPRETED and t.num_args() == 0:
+        r = RANGES.get(t.get_id())
+        return r if r is not None else (lo_t, hi_t)
+    if k in (z3.Z3_OP_BADD, z3.Z3_OP_BMUL, z3.Z3_OP_BSUB):
+        ivs = [interval(c, bits, signed) for c in t.children()]
+        if any(i is None for i in ivs):
+            return None
+        lo, hi = ivs[0]
+        for (a, b) in ivs[1:]:
+            if k == z3.Z3_OP_BADD:
+                lo, hi = lo + a, hi + b
+            elif k == z3.Z3_OP_BSUB:
+                lo, hi = lo - b, hi - a
+            else:
+                c = (lo * a, lo * b, hi * a, hi * b)
+                lo, hi = min(c), max(c)
+        if lo < lo_t or hi > hi_t:
+            return None
+        return (lo, hi)
+    if k == z3.Z3_OP_ITE:
+        a, b = interval(t.arg(1), bits, signed), interval(t.arg(2), bits, signed)
+        if a is None or b is None:
+            return None
+        return (min(a[0], b[0]), max(a[1], b[1]))
+    if k == z3.Z3_OP_SIGN_EXT and signed:
+        return interval(t.arg(0), bits, True)
+    if k == z3.Z3_OP_ZERO_EXT:
+        r = interval(t.arg(0), bits, False)
+        return r
+    return (lo_t, hi_t)
+
+
+def static_lt(a, b, signed=True):
+    """True/False when a < b is decided by intervals, else None"""
+    ia, ib = interval(a, 64, signed), interval(b, 64, signed)
+    if ia is None or ib is None:
+        return None
+    if ia[1] < ib[0]:
+        return True
+    if ia[0] >= ib[1]:
+        return False
+    return None
+
+
+def static_le(a, b, signed=True):
+    ia, ib = interval(a, 64, signed), interval(b, 64, signed)
+    if ia is None or ib is None:
+        return None
+    if ia[1] <= ib[0]:
+        return True
+    if ia[0] > ib[1]:
+        return False
+    return None
+
+
 def b_and(a, b):
     if a is True:
         return b
@@ -385,7 +459,7 @@ class Engine:
         self.types = ir['types']
         self.funcs = ir['funcs']
         self.opts = opts or {}
-        self.solver = SolverCtx(self.opts.get('timeout_ms', 60000), self.opts.get('seed', 0))
+        self.solver = SolverCtx(self.opts.get('timeout_ms', 60000), self.opts.get('seed', 0), self.opts.get('logic'))
         self.next_obj = 1
         self.objmeta = {}
         self.nsym = 0
@@ -401,6 +475,24 @@ class Engine:
         self.intr = intrinsics.TABLE
         self.stubs = stubs.TABLE
         self.deadline = None
+        self.abstract_fp = bool(self.opts.get('abstract_fp'))
+        self.keep = []   # keeps ranged symbols alive so their ast ids stay unique
+        self._ufs = {}
+
+    # ---- FP abstraction (CEGAR): UF first, exact definition on demand -------
+    def fpa(self, st, name, exact, *args):
+        """returns `exact`, or an uninterpreted application standing for it (definition recorded on the path)"""
+        if not self.abstract_fp or st is None:
+            return exact
+        key = (name,) + tuple(a.sort().sexpr() for a in args) + (exact.sort().sexpr(),)
+        f = self._ufs.get(key)
+        if f is None:
+            f = z3.Function('%s_%d' % (name, len(self._ufs)), *([a.sort() for a in args] + [exact.sort()]))
+            self._ufs[key] = f
+        app = f(*args)
+        st.defs.append(app == exact)
+        self.cur_result['abstracted_ops'] = self.cur_result.get('abstracted_ops', 0) + 1
+        return app
 
     # ---- types -----------------------------------------------------------
     def ut(self, tid):
@@ -585,20 +677,70 @@ class Engine:
     def note_unknown(self, st, what):
         self.cur_result['unknown'].append({'what': what, 'pos': self.cur_pos(st)})
 
+    def model_says(self, st, cond):
+        """True/False if the cached model of st.pc decides cond, else None"""
+        m = st.model
+        if m is None:
+            return None
+        try:
+            v = m.eval(cond, model_completion=True)
+        except z3.Z3Exception:
+            return None
+        if z3.is_true(v):
+            return True
+        if z3.is_false(v):
+            return False
+        return None
+
+    def feasible_m(self, st, cond):
+        """feasibility with model capture: returns (bool, model|None)"""
+        r = self.solver.check(st.pc, cond)
+        m = None
+        if r == 'sat':
+            m = self.solver.model()
+        self.solver.done()
+        if r == 'unknown':
+            self.note_unknown(st, 'branch')
+            return True, None
+        return r == 'sat', m
+
     def decide(self, st, cond):
         """returns list of (bool_value, state) continuations for a boolean value"""
         cond = simp_bool(cond)
         if isinstance(cond, bool):
             return [(cond, st)]
-        t_ok = self.feasible(st, cond)
+        ncond = z3.Not(cond)
+        hint = self.model_says(st, cond)
+        if hint is True:
+            f_ok, fm = self.feasible_m(st, ncond)
+            if not f_ok:
+                return [(True, st)]
+            s2 = st.clone()
+            st.pc.append(cond)
+            s2.pc.append(ncond)
+            s2.model = fm
+            return [(True, st), (False, s2)]
+        if hint is False:
+            t_ok, tm = self.feasible_m(st, cond)
+            if not t_ok:
+                return [(False, st)]
+            s2 = st.clone()       # s2 takes the False side and keeps the old model
+            st.pc.append(cond)
+            st.model = tm
+            s2.pc.append(ncond)
+            return [(True, st), (False, s2)]
+        t_ok, tm = self.feasible_m(st, cond)
         if not t_ok:
             return [(False, st)]
-        f_ok = self.feasible(st, z3.Not(cond))
+        f_ok, fm = self.feasible_m(st, ncond)
         if not f_ok:
+            st.model = tm
             return [(True, st)]
         s2 = st.clone()
         st.pc.append(cond)
-        s2.pc.append(z3.Not(cond))
+        st.model = tm
+        s2.pc.append(ncond)
+        s2.model = fm
         return [(True, st), (False, s2)]
 
     def concretize(self, st, v, bits, signed, limit=None, what='value'):
@@ -633,6 +775,7 @@ class Engine:
         for i, cv in enumerate(vals):
             s2 = st if i == len(vals) - 1 else st.clone()
             s2.pc.append(v == z3.BitVecVal(cv, bits))
+            s2.model = None
             out.append((wrap(cv, bits, signed), s2))
         return out
 
@@ -1004,6 +1147,12 @@ class Engine:
         """0 <= idx < n as bool value (n is a length, never negative)"""
         if not is_sym(idx) and not is_sym(n):
             return 0 <= idx < n
+        ii, ni = interval(idx), interval(n)
+        if ii is not None and ni is not None:
+            if ii[0] >= 0 and ii[1] < ni[0]:
+                return True
+            if ii[1] < 0 or ii[0] >= ni[1]:
+                return False
         return simp_bool(z3.ULT(bv(idx, 64), bv(n, 64)))
 
     def iadd(self, a, b):
@@ -1079,6 +1228,11 @@ class Engine:
         """0 <= a <= b for int values where b is known non-negative (len/cap) or checked by chain"""
         if not is_sym(a) and not is_sym(b):
             return 0 <= a <= b
+        r1, r2 = static_le(0, a), static_le(a, b)
+        if r1 is False or r2 is False:
+            return False
+        if r1 is True and r2 is True:
+            return True
         a64, b64 = bv(a, 64), bv(b, 64)
         return simp_bool(z3.And(a64 >= 0, a64 <= b64))
 
@@ -1097,7 +1251,7 @@ class Engine:
         if k == 'int':
             r = self.int_binop(st, tok, x, y, xt, self.ut(ins['yt']))
         elif k == 'float':
-            r = self.float_binop(tok, x, y, xt['bits'])
+            r = self.float_binop(tok, x, y, xt['bits'], st)
         elif k == 'bool':
             if tok == '==':
                 r = simp_bool(b_term(x) == b_term(y)) if (is_sym(x) or is_sym(y)) else x == y
@@ -1118,14 +1272,14 @@ class Engine:
             same = self.iface_eq(x, y)
             r = same if tok == '==' else b_not(same)
         elif k in ('slice', 'sig', 'map', 'chan'):
-            # only comparison with nil is legal
-            isnil = (x.obj is None) if isinstance(x, SliceV) else (x is None)
-            other = y
-            if isinstance(x, SliceV) and x.obj is not None and isinstance(y, SliceV) and y.obj is not None:
-                raise Unsupported('slice comparison')
-            if isinstance(x, SliceV) and x.obj is None and isinstance(y, SliceV):
-                isnil = y.obj is None
-            r = isnil if tok == '==' else not isnil
+            # only comparison with nil is legal Go
+            def isnil(v):
+                return v.obj is None if isinstance(v, SliceV) else v is None
+            if not (isnil(x) or isnil(y)):
+                raise Unsupported('comparison of two non-nil ' + k)
+            r = isnil(x) and isnil(y)
+            if tok == '!=':
+                r = not r
         elif k == 'struct' or k == 'array':
             eq = self.deep_eq(x, y)
             r = eq if tok == '==' else b_not(eq)
@@ -1245,13 +1399,16 @@ class Engine:
             return simp_bool(a == b)
         elif tok == '!=':
             return simp_bool(a != b)
-        elif tok == '<':
-            return simp_bool(a < b if sg else z3.ULT(a, b))
-        elif tok == '<=':
-            return simp_bool(a <= b if sg else z3.ULE(a, b))
-        elif tok == '>':
-            return simp_bool(a > b if sg else z3.UGT(a, b))
-        elif tok == '>=':
+        elif tok in ('<', '<=', '>', '>='):
+            st_r = {'<': static_lt(x, y, sg), '<=': static_le(x, y, sg), '>': static_lt(y, x, sg), '>=': static_le(y, x, sg)}[tok]
+            if st_r is not None:
+                return st_r
+            if tok == '<':
+                return simp_bool(a < b if sg else z3.ULT(a, b))
+            if tok == '<=':
+                return simp_bool(a <= b if sg else z3.ULE(a, b))
+            if tok == '>':
+                return simp_bool(a > b if sg else z3.UGT(a, b))
             return simp_bool(a >= b if sg else z3.UGE(a, b))
         else:
             raise Unsupported('int op ' + tok)
@@ -1286,7 +1443,7 @@ class Engine:
             r = (a >> c2) if sg else z3.LShR(a, c2)
         return simp_int(r, w, sg)
 
-    def float_binop(self, tok, x, y, bits):
+    def float_binop(self, tok, x, y, bits, st=None):
         if not is_sym(x) and not is_sym(y):
             if tok in ('+', '-', '*', '/'):
                 a, b = np.float64(x), np.float64(y)
@@ -1298,13 +1455,13 @@ class Engine:
             return {'==': x == y, '!=': x != y, '<': x < y, '<=': x <= y, '>': x > y, '>=': x >= y}[tok]
         a, b = fp_term(x, bits), fp_term(y, bits)
         if tok == '+':
-            return simp_fp(z3.fpAdd(RNE, a, b), bits)
+            return self.fpa(st, 'fadd', simp_fp(z3.fpAdd(RNE, a, b), bits), a, b)
         if tok == '-':
-            return simp_fp(z3.fpSub(RNE, a, b), bits)
+            return self.fpa(st, 'fsub', simp_fp(z3.fpSub(RNE, a, b), bits), a, b)
         if tok == '*':
-            return simp_fp(z3.fpMul(RNE, a, b), bits)
+            return self.fpa(st, 'fmul', simp_fp(z3.fpMul(RNE, a, b), bits), a, b)
         if tok == '/':
-            return simp_fp(z3.fpDiv(RNE, a, b), bits)
+            return self.fpa(st, 'fdiv', simp_fp(z3.fpDiv(RNE, a, b), bits), a, b)
         if tok == '==':
             return simp_bool(z3.fpEQ(a, b))
         if tok == '!=':
@@ -1347,9 +1504,9 @@ class Engine:
     def op_Convert(self, st, fr, ins):
         x = self.val(st, fr, ins['x'])
         ft, tt = self.ut(ins['xt']), self.ut(ins['t'])
-        fr.regs[ins['reg']] = self.convert(x, ft, tt)
+        fr.regs[ins['reg']] = self.convert(x, ft, tt, st)
 
-    def convert(self, x, ft, tt):
+    def convert(self, x, ft, tt, st=None):
         fk, tk = ft['k'], tt['k']
         if self.value_mode:
             r = self.vm.convert(self, x, ft, tt)
@@ -1362,17 +1519,17 @@ class Engine:
                 return int_to_f32(x) if tt['bits'] == 32 else float(x)  # python int->float is RNE
             sort = F64 if tt['bits'] == 64 else F32
             if ft['signed']:
-                return simp_fp(z3.fpSignedToFP(RNE, x, sort), tt['bits'])
-            return simp_fp(z3.fpUnsignedToFP(RNE, x, sort), tt['bits'])
+                return self.fpa(st, 'i2f', simp_fp(z3.fpSignedToFP(RNE, x, sort), tt['bits']), x)
+            return self.fpa(st, 'u2f', simp_fp(z3.fpUnsignedToFP(RNE, x, sort), tt['bits']), x)
         if fk == 'float' and tk == 'float':
             if ft['bits'] == tt['bits']:
                 return x
             if not is_sym(x):
                 return f32(x) if tt['bits'] == 32 else x
             sort = F64 if tt['bits'] == 64 else F32
-            return simp_fp(z3.fpFPToFP(RNE, x, sort), tt['bits'])
+            return self.fpa(st, 'f2f', simp_fp(z3.fpFPToFP(RNE, x, sort), tt['bits']), x)
         if fk == 'float' and tk == 'int':
-            return self.float2int(x, ft, tt)
+            return self.float2int(x, ft, tt, st)
         if fk == tk and fk in ('ptr', 'unsafeptr', 'string', 'slice'):
             return x
         if tk == 'unsafeptr' or fk == 'unsafeptr':
@@ -1392,7 +1549,7 @@ class Engine:
         return simp_int(z3.ZeroExt(tw - fw, x), tw, tt['signed'])
 
     # gc/amd64 (go1.23) float -> integer conversion, see DESIGN.md section 3
-    def float2int(self, x, ft, tt):
+    def float2int(self, x, ft, tt, st=None):
         tw, tsg = tt['bits'], tt['signed']
         if not is_sym(x):
             return wrap(amd64_f2i(float(x), tw, tsg), tw, tsg)
@@ -1419,7 +1576,10 @@ class Engine:
             r = z3.If(z3.fpLT(x64, two63), cvt(x64, 64, two63),
                       cvt(z3.fpSub(RNE, x64, two63), 64, two63) | z3.BitVecVal(1 << 63, 64))
             # NaN: fpLT false -> second branch -> cvt(NaN)=0x80.. | 0x80.. = 0x80..
-        return simp_int(r, tw, tsg)
+        r = simp_int(r, tw, tsg)
+        if is_sym(r):
+            r = self.fpa(st, 'f2i%s%d' % ('s' if tsg else 'u', tw), r, x)
+        return r
 
     # ---- calls -------------------------------------------------------------
     def op_Call(self, st, fr, ins):
@@ -1566,6 +1726,9 @@ class Engine:
     def sle(self, a, b):
         if not is_sym(a) and not is_sym(b):
             return a <= b
+        r = static_le(a, b)
+        if r is not None:
+            return r
         return simp_bool(bv(a, 64) <= bv(b, 64))
 
     def elem_size(self, tid):
@@ -1621,8 +1784,19 @@ class Engine:
         if cond is True:
             r['trivial'] += 1
             return
+        if r['failed'] >= self.opts.get('max_violations_per_label', 2):
+            # already reported for this harness: do not spend solver time on more witnesses of the same failure
+            r['skipped_after_failure'] = r.get('skipped_after_failure', 0) + 1
+            if cond is False:
+                raise PathEnd('assert-false')
+            return
         neg = z3.BoolVal(True) if cond is False else z3.Not(cond)
         res = self.solver.check(st.pc, neg)
+        if res == 'sat' and st.defs:
+            # counterexample of the abstraction: decide again with the exact definitions
+            self.solver.done()
+            r['refined'] = r.get('refined', 0) + 1
+            res = self.solver.check(st.pc + st.defs, neg)
         if res == 'sat':
             m = self.solver.model()
             self.solver.done()
@@ -1633,6 +1807,7 @@ class Engine:
             # continue under the assumption that it held, to find independent failures
             if self.feasible(st, cond):
                 st.pc.append(cond)
+                st.model = None
             else:
                 raise PathEnd('assert-false')
         else:
@@ -1646,7 +1821,7 @@ class Engine:
 
     def report_violation(self, st, label, model, extra_text=None):
         if model is None:
-            res = self.solver.check(st.pc)
+            res = self.solver.check(st.pc + st.defs)
             if res != 'sat':
                 self.solver.done()
                 return
@@ -1655,6 +1830,10 @@ class Engine:
         vals = []
         for name, tid, term in st.nondet:
             vals.append({'name': name, 'bits': str(self.model_bits(model, term, tid)), 'type': self.types[tid]['str']})
+        nlab = sum(1 for x in self.cur_result['violations'] if x['label'] == label)
+        if nlab >= self.opts.get('max_violations_per_label', 2):
+            self.cur_result['violations_dropped'] = self.cur_result.get('violations_dropped', 0) + 1
+            return
         v = {'label': label, 'values': vals, 'pos': self.cur_pos(st), 'text': extra_text,
              'covers': sorted(st.covers), 'choices': list(st.ghost.get('choices', []))}
         if len(self.cur_result['violations']) < self.opts.get('max_violations', 40):
